@@ -164,6 +164,41 @@ fn as_path_wire(rng: &mut Rng, hops: usize, two_byte: bool, allow_trans: bool) -
     (b, count)
 }
 
+/// ASNs of a path made of AS_SEQUENCE segments only (None otherwise).
+fn flat_seq(b: &[u8], asn_size: usize) -> Option<Vec<u32>> {
+    let mut out = Vec::new();
+    let mut p = 0;
+    while p + 2 <= b.len() {
+        if b[p] != 2 {
+            return None;
+        }
+        let n = b[p + 1] as usize;
+        for i in 0..n {
+            let s = p + 2 + i * asn_size;
+            let mut v = 0u32;
+            for k in 0..asn_size {
+                v = (v << 8) | *b.get(s + k)? as u32;
+            }
+            out.push(v);
+        }
+        p += 2 + n * asn_size;
+    }
+    Some(out)
+}
+
+/// RFC 6793 §4.2.3 for AS_SEQUENCE-only paths: what a NEW speaker must
+/// reconstruct from AS_PATH (2-octet) and AS4_PATH.
+fn rfc6793_path(as_path: &[u32], as4_path: Option<&[u32]>, ignore_as4: bool) -> Vec<u32> {
+    match as4_path {
+        Some(p4) if !ignore_as4 && as_path.len() >= p4.len() => {
+            let mut v = as_path[..as_path.len() - p4.len()].to_vec();
+            v.extend_from_slice(p4);
+            v
+        }
+        _ => as_path.to_vec(),
+    }
+}
+
 pub fn run_wire_case(ctx: &mut Ctx, case_seed: u64) {
     let mut rng = Rng::new(case_seed);
     let pool = ctx.pool.clone();
@@ -202,6 +237,9 @@ pub fn run_wire_case(ctx: &mut Ctx, case_seed: u64) {
     let mut withdrawn: Vec<u8> = Vec::new();
     let mut tail: Vec<u8> = Vec::new();
     let vary = rng.chance(2, 3);
+    let mut w_as_path: Option<Vec<u32>> = None;
+    let mut w_as4_path: Option<Option<Vec<u32>>> = None;
+    let mut w_ignore_as4 = false;
     let mut frng = rng.fork();
     let mut push = |flags: u8, code: u8, val: &[u8]| {
         let mut o = Vec::new();
@@ -213,6 +251,7 @@ pub fn run_wire_case(ctx: &mut Ctx, case_seed: u64) {
         let hops = rng.usize(12);
         let (p, cnt) = as_path_wire(&mut rng, hops, two, true);
         push(0x40, 2, &p);
+        w_as_path = flat_seq(&p, if two { 2 } else { 4 });
         if two && rng.chance(2, 3) {
             // AS4_PATH of fewer / equal / more hops than AS_PATH
             let h4 = match rng.below(4) {
@@ -226,6 +265,7 @@ pub fn run_wire_case(ctx: &mut Ctx, case_seed: u64) {
                 let p4 = if p4.first() == Some(&3) { p4[2 + 8..].to_vec() } else { p4 };
                 if !p4.is_empty() {
                     push(0xc0, 17, &p4);
+                    w_as4_path = Some(flat_seq(&p4, 4));
                 }
             }
         } else if !two && rng.chance(1, 6) {
@@ -246,6 +286,9 @@ pub fn run_wire_case(ctx: &mut Ctx, case_seed: u64) {
                     let mut v4 = (65536 + rng.below(100000) as u32).to_be_bytes().to_vec();
                     v4.extend_from_slice(&rng.bytes(4));
                     push(0xc0, 18, &v4);
+                    // AGGREGATOR with a real 2-octet AS + AS4_AGGREGATOR: both AS4
+                    // attributes are to be ignored
+                    w_ignore_as4 = !trans;
                 }
             } else {
                 let partial = if rng.chance(1, 4) { 0x20 } else { 0 };
@@ -392,6 +435,40 @@ pub fn run_wire_case(ctx: &mut Ctx, case_seed: u64) {
         let Some(u) = split_update(&m) else { continue };
         if u.entries.is_empty() {
             continue;
+        }
+        // reconciliation on receipt (RFC 6793 §4.2.3), judged for AS_SEQUENCE-only paths
+        if let (true, Some((_, attrs)), Some(p2)) = (two, &u.reach, &w_as_path) {
+            let p4 = match &w_as4_path {
+                None => Some(None),
+                Some(Some(v)) => Some(Some(v.as_slice())),
+                Some(None) => None, // AS4_PATH with sets: not judged
+            };
+            if let (Some(p4), Some(a)) = (p4, attrs.iter().find(|a| a.code() == rustybgp_packet::Attribute::AS_PATH)) {
+                let want = rfc6793_path(p2, p4, w_ignore_as4);
+                let got = a.binary().and_then(|b| flat_seq(b, 4));
+                ctx.rep.eval();
+                ctx.rep.count("as4-reconcile-on-receipt-evals");
+                if p4.is_some_and(|p| p.len() < p2.len()) && !w_ignore_as4 {
+                    ctx.rep.count("as4-reconcile:prefix-taken-from-as-path");
+                }
+                if got.as_deref() != Some(want.as_slice()) {
+                    ctx.rep.violation(
+                        "C04/as4-reconcile/as-path",
+                        "AS_PATH reconstructed from a 2-octet AS_PATH + AS4_PATH differs from RFC 6793 §4.2.3",
+                        Json::obj(vec![
+                            ("replay", Json::s(format!("c04 part=wire case={}", case_seed))),
+                            ("frame_hex", Json::s(hex(&frame))),
+                            ("receiver_caps", Json::s(pool[ai].name)),
+                            ("sender_caps", Json::s(pool[bi].name)),
+                            ("as_path_2octet", Json::s(format!("{:?}", p2))),
+                            ("as4_path", Json::s(format!("{:?}", p4))),
+                            ("as4_ignored_because_of_aggregator", Json::Bool(w_ignore_as4)),
+                            ("expected", Json::s(format!("{:?}", want))),
+                            ("got", Json::s(format!("{:?}", got))),
+                        ]),
+                    );
+                }
+            }
         }
         if reach && u.reach.is_none() {
             ctx.rep.count("wire:treated-as-withdraw-by-receiver");
